@@ -167,7 +167,7 @@ def judge(case, stats=None):
 
 @st.composite
 def cases(draw, n_ext):
-  design = draw(rtl_gen.designs())
+  design = draw(rtl_gen.designs(index_chain=draw(st.sampled_from([1, 3]))))
   seq = draw(rtl_gen.input_seqs(design))
   seeds = draw(st.lists(st.integers(0, 2 ** 20), min_size=3, max_size=3))
   return {"design": design, "seq": seq, "seeds": seeds, "n_ext": n_ext}
